@@ -275,6 +275,15 @@ theorem C04_cex_multi_burst_order :
       (Spec.funcRuns [cexTop, cexBot] 0 [] (opsOf steps)).map (·.ctx) = [1, 2] := by
   decide
 
+/-- `@state_trigger(expr, kwargs=None)` – the value the documentation shows as the default: the spec (and a decorator
+without `kwargs=`) runs for every qualifying change; both subsystems never run (legacy: the trigger task dies with a
+`TypeError` at the first qualifying change; new: the decorator is rejected).  Finding C04-F5. -/
+theorem C04_cex_kwargs_none :
+    let qs := [false, true, false, true]
+    Legacy.kwNoneRuns qs = [] ∧ New.kwNoneRuns qs = [] ∧ Legacy.kwNoneEvals qs = 2 ∧ New.kwNoneEvals qs = 0 ∧
+      (qs.filter id).length = 2 := by
+  decide
+
 /-- non-vacuity of the hypotheses of `C04_legacy`: a fresh start where the expression's entities do not exist yet -/
 example : Good [cexCfg] ⟨[], []⟩ ∧ Primed cexCfg ⟨[], []⟩ ∧ WfCfg cexCfg := by
   refine ⟨?_, ?_, ⟨?_, ?_⟩⟩
